@@ -1,2 +1,3 @@
 //! Reference models.
 pub mod grid;
+pub mod offcrypto;
